@@ -128,7 +128,7 @@ def _classes():
     logging.getLogger("pyrex").setLevel(logging.CRITICAL)
     from pyrex.antenna import Antenna, DipoleAntenna
     from pyrex.detector import AntennaSystem
-    from pyrex.signals import Signal
+    from pyrex.signals import Signal, EmptySignal, FunctionSignal
 
     class ExactAntenna(Antenna):
         """Antenna whose response is the identity without the FFT round trip, so that the
@@ -163,6 +163,7 @@ def _classes():
             return Signal(signal.times, y, value_type=signal.value_type)
 
     return dict(Antenna=Antenna, DipoleAntenna=DipoleAntenna, AntennaSystem=AntennaSystem, Signal=Signal,
+                EmptySignal=EmptySignal, FunctionSignal=FunctionSignal,
                 ExactAntenna=ExactAntenna, LinSystem=LinSystem)
 
 
@@ -207,9 +208,20 @@ def np_times(times):
 
 
 def mk_signal(d):
+    """json signal -> pyrex object.  form "empty": an EmptySignal (what EventKernel sends for off-cone rays; all
+    zeros on its grid); form "func": a FunctionSignal whose function is the piecewise-linear interpolant of the
+    listed samples with zero outside (so evaluating it anywhere IS linear interpolation); default: Signal."""
     C = classes()
     ts, vs = sig_of(d)
-    return C["Signal"](np_times(ts), np.array([float(v) for v in vs]), value_type=C["Signal"].Type.voltage)
+    vt = C["Signal"].Type.voltage
+    form = d.get("form")
+    if form == "empty":
+        return C["EmptySignal"](np_times(ts), value_type=vt)
+    xp, fp = np_times(ts), np.array([float(v) for v in vs])
+    if form == "func":
+        return C["FunctionSignal"](np_times(ts), lambda t, xp=xp, fp=fp: np.interp(t, xp, fp, left=0, right=0),
+                                   value_type=vt)
+    return C["Signal"](xp, fp, value_type=vt)
 
 
 def sig_out(s):
@@ -469,6 +481,14 @@ def rand_history(rng, cfg, max_ops=40, noise=False):
                 hist.append(["recv2", s, s2])
                 vs = [a + b for a, b in zip(vs, sig_of(s2)[1])]
             else:
+                r2 = rng.random()
+                if r2 < 0.14:
+                    # an EmptySignal (off-cone ray): zeros on its own grid, usually overlapping the other signals
+                    s["vals"] = ["0/1"] * s["n"]
+                    s["form"] = "empty"
+                    vs = [Fr(0)] * s["n"]
+                elif r2 < 0.24 and cfg["kind"] != "dipole":
+                    s["form"] = "func"
                 hist.append(["recv", s])
             prev.append(s)
             totals.append((ts, vs))
@@ -640,10 +660,37 @@ def noise_probe(ctx, n_hist):
     rng = ctx.rng
     kinds = 0
     reported = 0
+    n_bad = 0
+    fixed = [({"kind": "sys", "lead_in": "6/1", "k": "2/1", "taps": ["0/1", "0/1", "0/1", "1/1"]},
+              [["noise", {"t0": "0/1", "dt": "1/1", "n": 8}], ["noise", {"t0": "4/1", "dt": "1/1", "n": 8}],
+               ["recv", {"t0": "2/1", "dt": "1/1", "n": 6, "vals": ["0/1", "5/1", "-3/1", "4/1", "1/1", "0/1"]}],
+               ["full", {"t0": "0/1", "dt": "1/1", "n": 8}], ["all"],
+               ["recv", {"t0": "3/1", "dt": "1/2", "n": 5, "vals": ["0/1", "0/1", "0/1", "0/1", "0/1"], "form": "empty"}],
+               ["wf"], ["noise", {"t0": "3/1", "dt": "1/2", "n": 5}], ["full", {"t0": "4/1", "dt": "1/1", "n": 8}]])]
     for i in range(n_hist):
+        if i < len(fixed):
+            cfg, hist = fixed[i]
+            seed = 12345
+            bad = noise_history_bad(cfg, hist, seed)
+            ctx.case(key=("noise", json.dumps(cfg, sort_keys=True), summarize(hist)), nontrivial=True)
+            kinds += 1
+            if bad:
+                n_bad += 1
+                reported += 1
+                ctx.fail("noise:" + history_key(cfg, hist),
+                         "noisy %s: the noise seen is not the one noise realisation at the same absolute times: %s ; history: %s"
+                         % (json.dumps(cfg), bad, summarize(hist)),
+                         {"kind": "noise", "cfg": cfg, "history": hist, "np_seed": seed})
+            continue
         cfg = rng.choice([{"kind": "exact"}, {"kind": "sys", "lead_in": "3/1", "k": "2/1"},
                           {"kind": "sys", "lead_in": "0/1", "k": "1/1"}, {"kind": "real"},
-                          {"kind": "dipole", "thr": "2/1"}, {"kind": "thr", "thr": "3/1"}])
+                          {"kind": "dipole", "thr": "2/1"}, {"kind": "thr", "thr": "3/1"},
+                          # front ends with memory; lead_in_time covers the memory for every grid step (dt <= 2)
+                          {"kind": "sys", "lead_in": "6/1", "k": "1/1", "taps": ["0/1", "0/1", "0/1", "1/1"]},
+                          {"kind": "sys", "lead_in": "5/2", "k": "2/1", "taps": ["1/1", "-1/1"]},
+                          {"kind": "sys", "lead_in": "27/4", "k": "-1/1", "taps": ["1/4", "1/2", "1/4"]},
+                          {"kind": "sys", "lead_in": "10/1", "k": "1/2", "thr": "3/1", "taps": ["2/1", "0/1", "0/1", "-1/1"]},
+                          {"kind": "sys", "lead_in": "10/1", "k": "1/1", "taps": ["0/1", "0/1", "0/1", "0/1", "0/1", "1/1"]}])
         hist = rand_history(rng, cfg, max_ops=25, noise=True)
         # restrict to integer time steps (the noise master is built from the first window)
         seed = rng.randrange(2**31)
@@ -652,38 +699,63 @@ def noise_probe(ctx, n_hist):
                  nontrivial=bad is not None or any(op[0] in ("noise", "full", "all", "wf") for op in hist),
                  sample={"noise_history": summarize(hist), "cfg": cfg} if i < 1 else None)
         kinds += 1
+        n_bad += 1 if bad else 0
         if bad and reported < 3:
             reported += 1
             small = shrink(cfg, hist, lambda h: noise_history_bad(cfg, h, seed) is not None)
             what = noise_history_bad(cfg, small, seed)
             ctx.fail("noise:" + history_key(cfg, small),
-                     "noisy %s: waveform minus the sum of the received signals (= the noise) is not the same at the same "
-                     "absolute time although the noise was not reset: %s ; history: %s" % (json.dumps(cfg), what, summarize(small)),
+                     "noisy %s: the noise seen (waveform minus the front end of the sum of the received signals) is not the one "
+                     "noise realisation at the same absolute times (noise not reset): %s ; history: %s" % (json.dumps(cfg), what, summarize(small)),
                      {"kind": "noise", "cfg": cfg, "history": small, "np_seed": seed})
+    ctx.oblige("probe:noise realisation consistent (implementation)", n_bad == 0, "%d of %d noisy histories" % (n_bad, kinds))
     return kinds
 
 
 def noise_history_bad(cfg, hist, seed):
+    """Returns a description of the first inconsistency or None.
+    For every make_noise / full_waveform / all_waveforms / waveforms output, value - (front end of the sum of
+    the received signals) is the noise sample n(t) of that trace.  (1) two samples at the same absolute time
+    (and, for a front end acting on samples, the same grid step) within one noise epoch must agree;
+    (2) n(t_j) must equal the front end applied to the ANTENNA's noise on the infinite grid of step dt through
+    t_j:  sum_m taps[m]*k*N(t_j - m*dt), N read from Antenna.make_noise at those absolute times (numpy only;
+    never touches the system's lead-in code)."""
     np.random.seed(seed)
     obj = build(cfg, noisy=True)
-    k = float(Fr(cfg.get("k", "1/1"))) if cfg["kind"] == "sys" else 1.0
+    orc = Oracle(cfg)
+    k = float(orc.k)
+    taps = [float(c) for c in orc.taps]
+    gain = abs(k) * sum(abs(c) for c in taps)
+    ant = getattr(obj, "antenna", obj)
     seen = {}
     received = []
 
-    def sigsum(t):
-        return k * float(sum((interp_fr(t, ts, vs) for ts, vs in received), Fr(0)))
-
     def tol():
-        return 1e-9 * (1 + abs(k)) * (1 + sum(float(max(abs(v) for v in vs)) for _, vs in received))
+        return 1e-9 * (1 + gain) * (1 + sum(float(max(abs(v) for v in vs)) for _, vs in received))
+
+    def expected_noise(times):
+        dt = times[1] - times[0]
+        exp = np.zeros(len(times))
+        for m, c in enumerate(taps):
+            exp += c * k * np.asarray(ant.make_noise(np_times([t - m * dt for t in times])).values)
+        return exp
 
     def note(sig, what, with_signals=True):
-        for t, v in zip(sig[0], sig[1]):
-            n = float(v) - (sigsum(t) if with_signals else 0.0)
-            if t in seen:
-                if abs(seen[t][0] - n) > tol():
-                    return "noise at t=%s was %r (%s) and is now %r (%s)" % (t, seen[t][0], seen[t][1], n, what)
+        times = sig[0]
+        dt = times[1] - times[0]
+        sigpart = [float(v) for v in orc.fe_of(received, times)] if (with_signals and received) else [0.0] * len(times)
+        exp = expected_noise(times)
+        for i, (t, v) in enumerate(zip(times, sig[1])):
+            n = float(v) - sigpart[i]
+            key = (t, dt) if len(taps) > 1 else t
+            if key in seen:
+                if abs(seen[key][0] - n) > tol():
+                    return "noise at t=%s was %r (%s) and is now %r (%s)" % (t, seen[key][0], seen[key][1], n, what)
             else:
-                seen[t] = (n, what)
+                seen[key] = (n, what)
+            if abs(n - exp[i]) > tol():
+                return ("noise part of %s at t=%s (sample %d of the trace, dt=%s) is %r but the front end applied to the "
+                        "antenna noise at the absolute times t-m*dt gives %r" % (what, t, i, dt, n, float(exp[i])))
         return None
     for j, op in enumerate(hist):
         try:
@@ -692,7 +764,6 @@ def noise_history_bad(cfg, hist, seed):
             return "exception %s: %s at op %d %s" % (type(e).__name__, str(e)[:150], j, op[0])
         if op[0] in ("recv", "recv2"):
             received.append(stored_signal(obj))
-            # waveform windows seen so far keep their noise; nothing to compare here
         elif op[0] == "clear":
             received = []
             if op[1]:
